@@ -1936,6 +1936,10 @@ class GitClient:
                     raise GitProtocolError(data.decode("utf-8", "replace"))
                 else:
                     raise AssertionError(f"Invalid sideband channel {chan}")
+            if pktline_parser is not None and pktline_parser.get_tail():
+                # The status report ended inside a pkt-line: what was cut off
+                # may be the rejection of a ref.
+                raise GitProtocolError("truncated pkt-line in status report")
         else:
             if CAPABILITY_REPORT_STATUS in capabilities:
                 assert self._report_status_parser
